@@ -146,3 +146,38 @@ func PermuteInMapsKeys(max int) func(ex *Exec, entries []*mapEntry) []*mapEntry 
 		return out
 	}
 }
+
+// TopFunc names the innermost function of the package under test that was active when the last panic/abort happened.
+func (ex *Exec) TopFunc() string {
+	for fr := ex.top; fr != nil; fr = fr.caller {
+		if fr.fn != nil && fr.fn.Pkg == ex.eng.Pkg {
+			n := fr.fn.String()
+			if i := len(TargetPath); len(n) > i {
+				return containsTrim(n)
+			}
+			return n
+		}
+	}
+	return "?"
+}
+
+func containsTrim(n string) string {
+	out := ""
+	for i := 0; i < len(n); {
+		if i+len(TargetPath) <= len(n) && n[i:i+len(TargetPath)] == TargetPath {
+			i += len(TargetPath)
+			if i < len(n) && n[i] == '.' {
+				i++
+			}
+			continue
+		}
+		out += string(n[i])
+		i++
+	}
+	return out
+}
+
+func (ex *Exec) LazyForced() []string { return append([]string(nil), ex.lazyForced...) }
+
+// PanicOrigin names the function of the package under test in which the escaping panic was raised.
+func (ex *Exec) PanicOrigin() string { return ex.panicFrom }
